@@ -95,15 +95,8 @@ pub mod emap {
 
         #[verifier::external_body]
         pub fn iter(&self) -> (r: Iter<'_, V>)
-//#ifnot lax
             requires forall|i: int| 0 <= i < self.view().len() ==> (#[trigger] self.view()[i]).is_some(),
             ensures r.src() == self.view(), r.pos() == 0,
-//#endif
-//#if lax
-            // lax mode (U_debug): the same contract as an implication, for callers that cannot state a precondition
-            // (trait methods); a map of the shim is always initialised (with_capacity_some is its only constructor)
-            ensures (forall|i: int| 0 <= i < self.view().len() ==> (#[trigger] self.view()[i]).is_some()) ==> r.src() == self.view() && r.pos() == 0,
-//#endif
         { unimplemented!() }
 
         #[verifier::external_body]
